@@ -148,7 +148,7 @@ theorem deHeaderL_compat (d : Ini) : deHeaderL (compatDoc d) = .ok v00 := by
 /-- not starting with `/` -/
 def RelPath (p : Str) : Prop := Str.startsWith p ['/'] = false
 
-theorem fixPath_rel {p : Str} (h : RelPath p) (on : Bool) : fixPath on p = p := by
+theorem c17_fixPath_rel {p : Str} (h : RelPath p) (on : Bool) : fixPath on p = p := by
   unfold fixPath; unfold RelPath at h; simp [h]
 
 variable {C : IniSec → Prop} {L : List (Str × IniSec)} {d : Ini}
@@ -181,7 +181,7 @@ theorem deStage2L_rel (hm : ∀ v, Ini.get d sStage2 kMainimage = .ok v → RelP
     intro k hk
     cases hg : Ini.get d sStage2 k with
     | error e => rfl
-    | ok v => simp [Except.map, fixPath_rel (hk v hg)]
+    | ok v => simp [Except.map, c17_fixPath_rel (hk v hg)]
   unfold deStage2L deStage2
   rw [e _ hm, e _ hi]
 
@@ -215,21 +215,21 @@ theorem deChecksumsL_compat (hd : d.lookup DEFAULT = none) (fix : Bool) : deChec
   unfold deChecksumsL
   simp only [hasSection_compat d (s := sChecksums) (by decide), items_compat hd (s := sChecksums) (by decide)]
 
-theorem deChecksumItemsL_rel : ∀ (its : List (Str × Str)) (acc : List (Str × Str × Str)), (∀ kv ∈ its, RelPath kv.1) →
+theorem c17_deChecksumItemsL_rel : ∀ (its : List (Str × Str)) (acc : List (Str × Str × Str)), (∀ kv ∈ its, RelPath kv.1) →
     deChecksumItemsL true its acc = deChecksumItems its acc
   | [], _, _ => rfl
   | kv :: rest, acc, h => by
-    simp only [deChecksumItemsL, deChecksumItems, fixPath_rel (h kv (List.mem_cons_self ..))]
+    simp only [deChecksumItemsL, deChecksumItems, c17_fixPath_rel (h kv (List.mem_cons_self ..))]
     cases checksumOf kv.2 with
     | error e => rfl
-    | ok tv => exact deChecksumItemsL_rel rest _ (fun x hx => h x (List.mem_cons_of_mem _ hx))
+    | ok tv => exact c17_deChecksumItemsL_rel rest _ (fun x hx => h x (List.mem_cons_of_mem _ hx))
 
 theorem deChecksumsL_rel (h : ∀ its, Ini.items d sChecksums = .ok its → ∀ kv ∈ its, RelPath kv.1) :
     deChecksumsL true d = deChecksums d := by
   unfold deChecksumsL deChecksums
   cases hit : Ini.items d sChecksums with
   | error e => rfl
-  | ok its => simp only [Except.bind, deChecksumItemsL_rel its [] (h its hit)]
+  | ok its => simp only [Except.bind, c17_deChecksumItemsL_rel its [] (h its hit)]
 
 /-- `Checksums.deserialize` at 0.0 on the restricted document -/
 theorem deChecksumsL_ok {t : TreeInfo} {g : IniSec} (V : View C (docList t g) d) (hok : ChecksumsOK t.checksums)
@@ -260,7 +260,7 @@ theorem foldl_fix_rel : ∀ (its m : List (Str × Str)), (∀ kv ∈ its, RelPat
     its.foldl (fun m kv => setKV kv.1 (fixPath true kv.2) m) m = its.foldl (fun m kv => setKV kv.1 kv.2 m) m
   | [], _, _ => rfl
   | kv :: rest, m, h => by
-    simp only [List.foldl_cons, fixPath_rel (h kv (List.mem_cons_self ..))]
+    simp only [List.foldl_cons, c17_fixPath_rel (h kv (List.mem_cons_self ..))]
     exact foldl_fix_rel rest _ (fun x hx => h x (List.mem_cons_of_mem _ hx))
 
 theorem deImageSectionsL_filter (fix : Bool) (d : Ini) (arch : Str) : ∀ (ss : List Str) (acc : List (Str × List (Str × Str))),
